@@ -704,6 +704,15 @@ func configs(maxNodes int) []config {
 func main() {
 	gomega.RegisterFailHandler(func(m string, _ ...int) { panic("gomega: " + m) })
 	r := vk.New("C07", "exploration")
+	// this harness bounds every call of the code under test with its own limits (and confirms
+	// a miss on a dedicated re-run), so the supervisor's stall watchdog only has to see that
+	// the process is alive
+	go func() {
+		for {
+			vk.Beat()
+			time.Sleep(5 * time.Second)
+		}
+	}()
 	maxNodes := 3
 	cfs := configs(maxNodes)
 	scs := gen()
